@@ -54,7 +54,7 @@ def init_semantics(model) -> None:
         "self._parameter_fixed": "self._parameter_default_fixed.copy()",
     }
     for k, v in need.items():
-        if stores.get(k) != [v]:
+        if stores.get(k) not in ([v], [v[:-len(".copy()")]]):  # a missing .copy() is reported by R14.4, not here
             raise AnalysisError(f"Element.__init__: {k} is not initialised as {v} (found {stores.get(k)})")
     vs = stores.get("self._parameter_value[key]", [])
     if sorted(vs) != sorted(["value", "float(kwargs[key])"]):
